@@ -274,7 +274,7 @@ Section Local.
     same_view n (fst (exec_op n d o)) (fst (exec_op n d' o)).
   Proof.
     intros V. destruct o as [k v|k|k|z| |x k v|x k]; simpl.
-    - destruct k as [|c k]; [split; [reflexivity|exact V]|].
+    - destruct (key_ok k); [|split; [reflexivity|exact V]].
       rewrite <- (V (data_bucket n)) by auto.
       destruct (bget d (data_bucket n)) as [m|]; simpl; [|split; [reflexivity|exact V]].
       split; [reflexivity|now apply same_view_bset].
@@ -289,7 +289,7 @@ Section Local.
       destruct (bget d (ver_bucket n)) as [m|]; simpl; split; auto.
     - assert (V1 : same_view n (bcreate d (add_bucket n x)) (bcreate d' (add_bucket n x)))
         by (apply same_view_bcreate; auto).
-      destruct k as [|c k]; [split; [reflexivity|exact V1]|].
+      destruct (key_ok k); [|split; [reflexivity|exact V1]].
       rewrite <- (V1 (add_bucket n x)) by auto.
       destruct (bget (bcreate d (add_bucket n x)) (add_bucket n x)) as [m|]; simpl;
         [|split; [reflexivity|exact V1]].
@@ -311,13 +311,13 @@ Section Local.
     { intros x. rewrite bget_bcreate. destruct (bget d b); [reflexivity|].
       specialize (NA x). apply bytes_eqb_neq in NA. now rewrite NA. }
     destruct o as [k v|k|k|z| |x k v|x k]; simpl.
-    - destruct k; [reflexivity|]. destruct (bget d (data_bucket m)); simpl; [|reflexivity].
+    - destruct (key_ok k); [|reflexivity]. destruct (bget d (data_bucket m)); simpl; [|reflexivity].
       now apply bget_bset_other.
     - now destruct (bget d (data_bucket m)).
     - now destruct (bget d (data_bucket m)).
     - destruct (bget d (ver_bucket m)); simpl; [|reflexivity]. now apply bget_bset_other.
     - now destruct (bget d (ver_bucket m)).
-    - destruct k; [apply CR|].
+    - destruct (key_ok k); [|apply CR].
       destruct (bget (bcreate d (add_bucket m x)) (add_bucket m x)); simpl; [|apply CR].
       rewrite bget_bset_other by apply NA. apply CR.
     - destruct (bget (bcreate d (add_bucket m x)) (add_bucket m x)); simpl; apply CR.
@@ -436,7 +436,7 @@ Section Local.
     match hs with
     | [] => acc
     | HOp 0 (OSave k' v) :: r =>
-        last_saved k r (match k' with [] => acc | _ => if bytes_eqb k k' then Some v else acc end)
+        last_saved k r (if key_ok k' then (if bytes_eqb k k' then Some v else acc) else acc)
     | _ :: r => last_saved k r acc
     end.
 
@@ -451,17 +451,16 @@ Section Local.
   Lemma kv_step n d k v o : kv_is n d k v ->
     kv_is n (fst (exec_op n d o)) k
       (match o with
-       | OSave [] _ => v
-       | OSave k' v' => if bytes_eqb k k' then Some v' else v
+       | OSave k' v' => if key_ok k' then (if bytes_eqb k k' then Some v' else v) else v
        | _ => v
        end).
   Proof.
     intros [m [G A]].
     destruct (own_buckets_distinct n [] []) as [DV [_ _]].
     destruct o as [k' v'|k'|k'|z| |x k' v'|x k']; simpl.
-    - destruct k' as [|c k']; [exists m; auto|]. rewrite G. simpl.
-      exists (aput m (c :: k') v'). rewrite bget_bset_same. split; [reflexivity|].
-      destruct (bytes_eqb k (c :: k')) eqn:E.
+    - destruct (key_ok k'); [|exists m; auto]. rewrite G. simpl.
+      exists (aput m k' v'). rewrite bget_bset_same. split; [reflexivity|].
+      destruct (bytes_eqb k k') eqn:E.
       + apply bytes_eqb_spec in E. subst k. apply aget_aput_same.
       + apply bytes_eqb_neq in E. now rewrite aget_aput_other.
     - rewrite G. exists m; auto.
@@ -472,7 +471,7 @@ Section Local.
     - destruct (own_buckets_distinct n x x) as [_ [DA _]].
       assert (G1 : bget (bcreate d (add_bucket n x)) (data_bucket n) = Some m)
         by (now rewrite bget_bcreate, G).
-      destruct k' as [|c k']; [exists m; auto|].
+      destruct (key_ok k'); [|exists m; auto].
       destruct (bget (bcreate d (add_bucket n x)) (add_bucket n x)); simpl; [|exists m; auto].
       exists m. split; [|assumption]. now rewrite bget_bset_other.
     - assert (G1 : bget (bcreate d (add_bucket n x)) (data_bucket n) = Some m)
@@ -592,7 +591,7 @@ Section Version.
     destruct (own_buckets_distinct n [] []) as [DV _].
     assert (DV' : ver_bucket n <> data_bucket n) by congruence.
     destruct o as [k' v'|k'|k'|z| |x k' v'|x k']; simpl.
-    - destruct k' as [|c k']; [exists m; auto|].
+    - destruct (key_ok k'); [|exists m; auto].
       destruct (bget d (data_bucket n)); simpl; [|exists m; auto].
       exists m. split; [|assumption]. now rewrite bget_bset_other.
     - destruct (bget d (data_bucket n)); exists m; auto.
@@ -603,7 +602,7 @@ Section Version.
     - destruct (own_buckets_distinct n x x) as [_ [_ [DA _]]].
       assert (G1 : bget (bcreate d (add_bucket n x)) (ver_bucket n) = Some m)
         by (now rewrite bget_bcreate, G).
-      destruct k' as [|c k']; [exists m; auto|].
+      destruct (key_ok k'); [|exists m; auto].
       destruct (bget (bcreate d (add_bucket n x)) (add_bucket n x)); simpl; [|exists m; auto].
       exists m. split; [|assumption]. now rewrite bget_bset_other.
     - assert (G1 : bget (bcreate d (add_bucket n x)) (ver_bucket n) = Some m)
@@ -673,12 +672,12 @@ Section NoCrash.
     assert (C : forall b', bget (bcreate d b') b <> None).
     { intros b'. rewrite bget_bcreate. destruct (bget d b); [discriminate|contradiction]. }
     destruct o as [k v|k|k|z| |x k v|x k]; simpl.
-    - destruct k; [assumption|]. destruct (bget d (data_bucket n)); simpl; auto.
+    - destruct (key_ok k); [|assumption]. destruct (bget d (data_bucket n)); simpl; auto.
     - now destruct (bget d (data_bucket n)).
     - now destruct (bget d (data_bucket n)).
     - destruct (bget d (ver_bucket n)); simpl; auto.
     - now destruct (bget d (ver_bucket n)).
-    - destruct k; [apply C|].
+    - destruct (key_ok k); [|apply C].
       destruct (bget (bcreate d (add_bucket n x)) (add_bucket n x)); simpl; auto.
     - destruct (bget (bcreate d (add_bucket n x)) (add_bucket n x)); simpl; auto.
   Qed.
@@ -690,7 +689,7 @@ Section NoCrash.
     assert (A : forall x, bget (bcreate d (add_bucket n x)) (add_bucket n x) <> None).
     { intros x. rewrite bget_bcreate, bytes_eqb_refl. now destruct (bget d (add_bucket n x)). }
     destruct o as [k v|k|k|z| |x k v|x k]; simpl.
-    - destruct k; [discriminate|]. destruct (bget d (data_bucket n)); [discriminate|contradiction].
+    - destruct (key_ok k); [|discriminate]. destruct (bget d (data_bucket n)); [discriminate|contradiction].
     - destruct (bget d (data_bucket n)) as [m|]; [|contradiction]. simpl.
       destruct (aget m k); [destruct (memb b dec)|]; discriminate.
     - destruct (bget d (data_bucket n)) as [m|]; [|contradiction]. simpl.
@@ -698,7 +697,7 @@ Section NoCrash.
     - destruct (bget d (ver_bucket n)); [discriminate|contradiction].
     - destruct (bget d (ver_bucket n)) as [m|]; [|contradiction]. simpl.
       destruct (aget m key_dbversion) as [[|b0 [|b1 [|b2 [|b3 ?]]]]|]; discriminate.
-    - specialize (A x). destruct k; [discriminate|].
+    - specialize (A x). destruct (key_ok k); [|discriminate].
       destruct (bget (bcreate d (add_bucket n x)) (add_bucket n x)); [discriminate|contradiction].
     - specialize (A x).
       destruct (bget (bcreate d (add_bucket n x)) (add_bucket n x)) as [m|]; [|contradiction]. simpl.
